@@ -83,6 +83,8 @@ def cases(shard, tier):
             yield ["get", k, n, ["l", list(t)]]
     for m in itertools.product([0, 1], repeat=n):
         yield ["get", k, n, ["m", list(m)]]
+        if n:
+            yield ["get", k, n, ["lb", list(m)]]
     yield ["iter", k, n]
     for m in range(0, 4):
         yield ["cat", k, n, m]
@@ -131,9 +133,9 @@ def check(case, acc):
     names = ["a", "b", "c"][:k]
     if kind == "get":
         from mc import dsl
-        s = dsl.dec(case[3])
-        s2 = np.array([], dtype=int) if isinstance(s, list) and len(s) == 0 else s
-        if case[3][0] == "m":
+        s = [bool(b) for b in case[3][1]] if case[3][0] == "lb" else dsl.dec(case[3])     # "lb": a plain list of bools (numpy: a mask)
+        s2 = np.array([], dtype=int) if isinstance(s, list) and len(s) == 0 else (np.array(s, dtype=bool) if case[3][0] == "lb" else s)
+        if case[3][0] in ("m", "lb"):
             acc.feature("mask_selector")
         if case[3][0] == "l" and len(set(case[3][1])) < len(case[3][1]):
             acc.feature("list_with_repeats")
